@@ -314,3 +314,45 @@ def random_tx(rng, n_in=None, n_out=None, big=False):
         pass
     return {"version": rng.choice([1, 2]), "ins": ins, "outs": outs,
             "lock": rng.choice([0, 1, 499999999, 500000000, 0xffffffff, rng.getrandbits(32)])}
+
+
+HEX_SPELLINGS = ("upper", "mixed", "bytes_spaced", "grouped", "lines", "padded")
+
+
+def respell(h, rng, how=None):
+    """Another spelling of the same bytes that bytes.fromhex - hence every request validator of the middleware -
+    accepts: letter case, blanks / tabs / line ends between bytes, blanks around."""
+    how = how or rng.choice(HEX_SPELLINGS)
+    pairs = [h[i:i + 2] for i in range(0, len(h), 2)]
+    if how == "upper":
+        return h.upper()
+    if how == "mixed":
+        return "".join(c.upper() if rng.random() < 0.5 else c for c in h)
+    if how == "bytes_spaced":
+        return " ".join(pairs)
+    if how == "grouped":
+        g = rng.choice([2, 4, 8, 16])
+        return " ".join("".join(pairs[i:i + g]) for i in range(0, len(pairs), g))
+    if how == "lines":
+        return "\n".join("\t".join(pairs[i:i + 16]) for i in range(0, len(pairs), 16))
+    return " " + h + " \n"
+
+
+def respell_sign_request(req, rng, p=1.0):
+    """Re-spell (in place) the hex-valued fields of a sign request, each with probability p."""
+    def sp(v):
+        return respell(v, rng) if (isinstance(v, str) and v and rng.random() < p) else v
+    m = req.get("message")
+    if isinstance(m, dict):
+        for k in ("tx", "witnessScript", "hash"):
+            if k in m:
+                m[k] = sp(m[k])
+    elif isinstance(m, str):
+        req["message"] = sp(m)
+    a = req.get("auth")
+    if isinstance(a, dict):
+        if "receipt" in a:
+            a["receipt"] = sp(a["receipt"])
+        if isinstance(a.get("receipt_merkle_proof"), list):
+            a["receipt_merkle_proof"] = [sp(n) for n in a["receipt_merkle_proof"]]
+    return req
